@@ -168,10 +168,48 @@ class Bits:
         return r
 
 
+_SITE_FUNCS = None
+_INV_CG = {}
+
+
+def site_owner(P, f, cal):
+    """the table entry function a call site belongs to: the function itself, or -- for a static helper that is not in the table and
+    is called from a single table function (code split out of an effect primitive) -- that caller"""
+    global _SITE_FUNCS
+    if _SITE_FUNCS is None:
+        _SITE_FUNCS = {k[0] for k in SITES}
+    fb = base(f.name)
+    if (fb, cal) in SITES or fb in _SITE_FUNCS or not f.internal:
+        return fb
+    if id(P) not in _INV_CG:
+        inv = {}
+        for a, bs in P.callgraph().items():
+            for b in bs:
+                inv.setdefault(b, set()).add(a)
+        _INV_CG[id(P)] = inv
+    inv = _INV_CG[id(P)]
+    owners = set()
+    work = [f.name]; seen = set()
+    while work:
+        x = work.pop()
+        if x in seen:
+            continue
+        seen.add(x)
+        for c in inv.get(x, ()):
+            cf = P.functions.get(c)
+            if base(c) in _SITE_FUNCS or cf is None or not cf.internal:
+                owners.add(base(c))
+            else:
+                work.append(c)
+    if len(owners) == 1 and (list(owners)[0], cal) in SITES:
+        return list(owners)[0]
+    return fb
+
+
 def classify_site(P, bits, f, c):
     """effect class of one external call site, or None if it has no write effect"""
     cal = c.callee
-    fb = base(f.name)
+    fb = site_owner(P, f, 'open' if cal in OPEN_CALLS else cal)
     if cal in OPEN_CALLS:
         flags = bits.of(f, c.ops[OPEN_CALLS[cal]])
         if flags is not None and not (flags & WRITE_BITS):
